@@ -656,9 +656,17 @@ row('GRAPH.STACKDEPTH', ['C18'], pushes=[('int', 'S0.graph.n() as i32')])
 row('GRAPH.NODE*ADD', ['C18'], touches=['graph', 'int'], clauses=graph_top_only() + [kept('int', 1, 1)] + untouched_without_graph(['int']))
 row('GRAPH.NODE*STATESWITCH', ['C18'], touches=['graph', 'int', 'intvec', 'boolvec'],
     clauses=graph_top_only() + [kept('int', 2, 0), kept('intvec', 1, 0), kept('boolvec', 1, 0)] + untouched_without_graph(['int', 'intvec', 'boolvec']))
-row('GRAPH.NODES', ['C18'], touches=['intvec'], clauses=[kept('intvec', 1, 1)] + untouched_without_graph(['intvec']))
-row('GRAPH.NODES*HISTORY', ['C18'], touches=['int', 'intvec'], clauses=[kept('int', 1, 0), kept('intvec', 1, 1),
-    ('{C18,C10}unfired.intvec', 'S0.int.len() == 0 ==> S1.intvec == S0.intvec')])
+def _filter_clauses(fire, g):
+    # the state-filter query as a set (HashMap order is unspecified): only ids of nodes in an admitted state, and every such node
+    sts = 'top(S0.intvec, 0).values@'
+    return [('fired.only-admitted-nodes', '(%s) ==> (S1.intvec.len() == S0.intvec.len() && (forall|i: int| 0 <= i < top(S1.intvec, 0).values@.len() ==> %s.node_int(%s, #[trigger] top(S1.intvec, 0).values@[i])))' % (fire, g, sts)),
+            ('fired.every-admitted-node', '(%s) ==> (forall|k: usize| #[trigger] %s.nodes@.contains_key(k) && crate::push::graph::allowed(%s, %s.nodes@[k].sstate()) ==> top(S1.intvec, 0).values@.contains(%s.nodes@[k].sid() as i32))' % (fire, g, sts, g, g))]
+row('GRAPH.NODES', ['C18'], touches=['intvec'], clauses=[kept('intvec', 1, 1)] + _filter_clauses('S0.graph.n() >= 1 && S0.intvec.len() >= 1', 'S0.graph.live().last()') + untouched_without_graph(['intvec']))
+# NODES*HISTORY reads the snapshot at the requested depth (0 = newest)
+_hp = 'top(S0.int, 0)'
+row('GRAPH.NODES*HISTORY', ['C18'], touches=['int', 'intvec'], clauses=[kept('int', 1, 0), kept('intvec', 1, 1)]
+    + _filter_clauses('S0.int.len() >= 1 && 0 <= %s < S0.graph.n() && S0.intvec.len() >= 1' % _hp, 'S0.graph.live()[S0.graph.n() - 1 - %s]' % _hp)
+    + [('{C18,C10}unfired.intvec', 'S0.int.len() == 0 ==> S1.intvec == S0.intvec')])
 row('GRAPH.NODE*GETSTATE', ['C18'], touches=['graph', 'int'], clauses=graph_top_only() + [kept('int', 1, 1),
     ('fired.graph.readonly', 'S1.graph.live() =~= S0.graph.live()')] + untouched_without_graph(['int']))
 row('GRAPH.NODE*HISTORY', ['C18'], touches=['graph', 'int'], clauses=buf_same('graph') + [kept('int', 2, 1),
@@ -670,8 +678,107 @@ row('GRAPH.EDGE*ADD', ['C18'], touches=['graph', 'int', 'float'], clauses=graph_
 row('GRAPH.EDGE*GETWEIGHT', ['C18'], touches=['graph', 'int', 'float'], clauses=graph_top_only() + [kept('int', 2, 0), kept('float', 0, 1),
     ('fired.graph.readonly', 'S1.graph.live() =~= S0.graph.live()')] + untouched_without_graph(['int', 'float']))
 row('GRAPH.EDGE*SETWEIGHT', ['C18'], touches=['graph', 'int', 'float'], clauses=graph_top_only() + [kept('int', 2, 0), kept('float', 1, 0)] + untouched_without_graph(['int', 'float']))
+_gq = 'S0.graph.live().last()'
+_nid = '(top(S0.int, 0) as usize)'
+_sts = 'top(S0.intvec, 0).values@'
+_qfire = 'S0.graph.n() >= 1 && S0.intvec.len() >= 1 && S0.int.len() >= 1 && top(S0.int, 0) > 0'
 for nm in ['GRAPH.NODE*NEIGHBORS', 'GRAPH.NODE*PREDECESSORS', 'GRAPH.NODE*SUCCESSORS']:
-    row(nm, ['C18'], touches=['int', 'intvec'], clauses=[kept('int', 1, 0), kept('intvec', 1, 1)] + untouched_without_graph(['int', 'intvec']))
+    extra = []
+    if nm == 'GRAPH.NODE*PREDECESSORS':
+        # exactly the origins of the node's incoming edges whose node exists in an admitted state, in edge-list order
+        extra = [('fired.exactly-the-predecessors', '(%s) ==> (S1.intvec.len() == S0.intvec.len() && top(S1.intvec, 0).values@ == '
+                  '(if %s.edges@.contains_key(%s) { %s.preds_upto(%s.edges@[%s]@, %s, %s.edges@[%s]@.len()) } else { Seq::<i32>::empty() }))'
+                  % (_qfire, _gq, _nid, _gq, _gq, _nid, _sts, _gq, _nid))]
+    if nm == 'GRAPH.NODE*NEIGHBORS':
+        _P = '(if %s.edges@.contains_key(%s) { %s.preds_upto(%s.edges@[%s]@, %s, %s.edges@[%s]@.len()) } else { Seq::<i32>::empty() })' % (_gq, _nid, _gq, _gq, _nid, _sts, _gq, _nid)
+        # the predecessors first (exactly, in edge-list order), then the successors (HashMap order: as a set)
+        extra = [('fired.starts-with-the-predecessors', '(%s) ==> (S1.intvec.len() == S0.intvec.len() && top(S1.intvec, 0).values@.len() >= %s.len() && top(S1.intvec, 0).values@.subrange(0, %s.len() as int) == %s)' % (_qfire, _P, _P, _P)),
+                 ('fired.then-only-successors', '(%s) ==> (forall|i: int| %s.len() <= i < top(S1.intvec, 0).values@.len() ==> %s.succ_int(%s, %s, #[trigger] top(S1.intvec, 0).values@[i]))' % (_qfire, _P, _gq, _nid, _sts)),
+                 ('fired.every-successor', '(%s) ==> (forall|d: usize| #[trigger] %s.is_succ(%s, %s, d) ==> top(S1.intvec, 0).values@.contains(d as i32))' % (_qfire, _gq, _nid, _sts))]
+    if nm == 'GRAPH.NODE*SUCCESSORS':
+        # HashMap iteration order is unspecified: the result is stated as a set -- only successors, and every successor (ids that fit an INTEGER)
+        extra = [('fired.only-successors', '(%s) ==> (S1.intvec.len() == S0.intvec.len() && (forall|i: int| 0 <= i < top(S1.intvec, 0).values@.len() ==> '
+                  '%s.succ_int(%s, %s, #[trigger] top(S1.intvec, 0).values@[i])))' % (_qfire, _gq, _nid, _sts)),
+                 ('fired.every-successor', '(%s) ==> (forall|d: usize| #[trigger] %s.is_succ(%s, %s, d) ==> top(S1.intvec, 0).values@.contains(d as i32))' % (_qfire, _gq, _nid, _sts))]
+    row(nm, ['C18'], touches=['int', 'intvec'], clauses=[kept('int', 1, 0), kept('intvec', 1, 1)] + extra + untouched_without_graph(['int', 'intvec']))
+FN_OVERLAYS['graph::graph_node_successors'] = dict(attrs='#[verifier::loop_isolation(false)]\n', loops={0: '''
+            invariant seq_i32(&successors).len() == successors@.len(),
+                // what vstd knows about HashMap iteration: every pair of the sequence is a pair of the map, and every key of the map occurs
+                forall|j: int| 0 <= j < ghost_iter.seq().len() ==> graph.edges@.contains_key(*(#[trigger] ghost_iter.seq()[j]).0) && graph.edges@[*ghost_iter.seq()[j].0] == *ghost_iter.seq()[j].1,
+                forall|d: usize| graph.edges@.contains_key(d) ==> exists|j: int| 0 <= j < ghost_iter.seq().len() && *(#[trigger] ghost_iter.seq()[j]).0 == d,
+                // only successors so far, and every successor among the destinations already visited
+                forall|i: int| 0 <= i < successors@.len() ==> graph.succ_int(node_id as usize, states.values@, #[trigger] successors@[i]),
+                forall|j: int| 0 <= j < ghost_iter.index@ ==> (graph.is_succ(node_id as usize, states.values@, *(#[trigger] ghost_iter.seq()[j]).0) ==> successors@.contains(*ghost_iter.seq()[j].0 as i32)),
+'''}, proofs={'loop 0 start': '''                            let ghost r0 = successors@;
+                            proof {
+                                assert(graph.edges@[*k] == *v);
+                                assert(v@.len() == v.len());
+                                crate::push::graph::lemma_first_from_range(v@, node_id as usize, v@.len());
+                            }
+''', 'loop 0 end': '''                            proof {
+                                let d = *k; let x = d as i32; let nd = node_id as usize; let sts = states.values@;
+                                assert(successors@ == r0 || successors@ == r0.push(x));
+                                if successors@ != r0 { assert(successors@[r0.len() as int] == x); assert(graph.is_succ(nd, sts, d)); }
+                                assert forall|i: int| 0 <= i < successors@.len() implies graph.succ_int(nd, sts, #[trigger] successors@[i]) by {
+                                    if i < r0.len() { assert(successors@[i] == r0[i]); } else { assert(graph.is_succ(nd, sts, d) && successors@[i] == d as i32); }
+                                }
+                                assert forall|j: int| 0 <= j < ghost_iter.index@ + 1 && graph.is_succ(nd, sts, *(#[trigger] ghost_iter.seq()[j]).0) implies successors@.contains(*ghost_iter.seq()[j].0 as i32) by {
+                                    if j < ghost_iter.index@ {
+                                        let y = *ghost_iter.seq()[j].0 as i32;
+                                        assert(r0.contains(y));
+                                        let w = choose|w: int| 0 <= w < r0.len() && r0[w] == y;
+                                        assert(successors@[w] == y);
+                                    } else {
+                                        assert(successors@[r0.len() as int] == x);
+                                    }
+                                }
+                            }
+'''})
+FN_OVERLAYS['graph::graph_node_neighbors'] = dict(attrs='#[verifier::loop_isolation(false)]\n', loops={0: '''
+            invariant seq_i32(&neighbors).len() == neighbors@.len(), ghost_iter.seq().len() == incoming_edges@.len(),
+                forall|k: int| 0 <= k < incoming_edges@.len() ==> *#[trigger] ghost_iter.seq()[k] == incoming_edges@[k],
+                neighbors@ == graph.preds_upto(incoming_edges@, states.values@, ghost_iter.index@ as nat),
+''', 1: '''
+            invariant seq_i32(&neighbors).len() == neighbors@.len(), neighbors@.len() >= pn.len(), neighbors@.subrange(0, pn.len() as int) == pn,
+                forall|j: int| 0 <= j < ghost_iter.seq().len() ==> graph.edges@.contains_key(*(#[trigger] ghost_iter.seq()[j]).0) && graph.edges@[*ghost_iter.seq()[j].0] == *ghost_iter.seq()[j].1,
+                forall|d: usize| graph.edges@.contains_key(d) ==> exists|j: int| 0 <= j < ghost_iter.seq().len() && *(#[trigger] ghost_iter.seq()[j]).0 == d,
+                forall|i: int| pn.len() <= i < neighbors@.len() ==> graph.succ_int(node_id as usize, states.values@, #[trigger] neighbors@[i]),
+                forall|j: int| 0 <= j < ghost_iter.index@ ==> (graph.is_succ(node_id as usize, states.values@, *(#[trigger] ghost_iter.seq()[j]).0) ==> neighbors@.contains(*ghost_iter.seq()[j].0 as i32)),
+'''}, proofs={'loop 1 before': '''                        let ghost pn = neighbors@;
+''', 'loop 1 start': '''                            let ghost r0 = neighbors@;
+                            proof {
+                                assert(graph.edges@[*k] == *v);
+                                assert(v@.len() == v.len());
+                                crate::push::graph::lemma_first_from_range(v@, node_id as usize, v@.len());
+                            }
+''', 'loop 1 end': '''                            proof {
+                                let d = *k; let x = d as i32; let nd = node_id as usize; let sts = states.values@;
+                                assert(neighbors@ == r0 || neighbors@ == r0.push(x));
+                                if neighbors@ != r0 { assert(neighbors@[r0.len() as int] == x); assert(graph.is_succ(nd, sts, d)); }
+                                assert(neighbors@.subrange(0, pn.len() as int) =~= r0.subrange(0, pn.len() as int));
+                                assert forall|i: int| pn.len() <= i < neighbors@.len() implies graph.succ_int(nd, sts, #[trigger] neighbors@[i]) by {
+                                    if i < r0.len() { assert(neighbors@[i] == r0[i]); } else { assert(graph.is_succ(nd, sts, d) && neighbors@[i] == d as i32); }
+                                }
+                                assert forall|j: int| 0 <= j < ghost_iter.index@ + 1 && graph.is_succ(nd, sts, *(#[trigger] ghost_iter.seq()[j]).0) implies neighbors@.contains(*ghost_iter.seq()[j].0 as i32) by {
+                                    if j < ghost_iter.index@ {
+                                        let y = *ghost_iter.seq()[j].0 as i32;
+                                        assert(r0.contains(y));
+                                        let w = choose|w: int| 0 <= w < r0.len() && r0[w] == y;
+                                        assert(neighbors@[w] == y);
+                                    } else {
+                                        assert(neighbors@[r0.len() as int] == x);
+                                    }
+                                }
+                            }
+'''})
+FN_OVERLAYS['graph::graph_node_predecessors'] = dict(attrs='#[verifier::loop_isolation(false)]\n', loops={0: '''
+            //bind R = let mut (\\w+) = vec!\\[\\];
+            //bind IE = if let Some\\((\\w+)\\) = graph\\.edges\\.get\\(
+            //bind ST = if let Some\\((\\w+)\\) = push_state\\.int_vector_stack\\.pop\\(\\)
+            invariant seq_i32(&$R).len() == $R@.len(), ghost_iter.seq().len() == $IE@.len(),
+                forall|k: int| 0 <= k < $IE@.len() ==> *#[trigger] ghost_iter.seq()[k] == $IE@[k],
+                $R@ == graph.preds_upto($IE@, $ST.values@, ghost_iter.index@ as nat),
+'''})
 FN_OVERLAYS['graph::graph_node_state_switch'] = dict(proofs={'body_start': '''        proof {
             if push_state.int_vector_stack@.len() >= 1 { assert(push_state.int_vector_stack@[push_state.int_vector_stack@.len() - 1].values@.len() < 0x7fff_ffff); }
             if push_state.bool_vector_stack@.len() >= 1 { assert(push_state.bool_vector_stack@[push_state.bool_vector_stack@.len() - 1].values@.len() < 0x7fff_ffff); }
